@@ -33,7 +33,8 @@ RULE = (
     "Simulations under EngineProbe caps against: CachedStore x nine eviction policies x write-through/write-back, "
     "capacity 1-3 over 4-6 keys, ops get/put/delete/invalidate/invalidate_all/flush/direct-backing-write+invalidate; "
     "MultiTierCache (L1/L2 CachedStores, each promotion policy, L2 pre-warmed); SoftTTLCache (soft/hard TTL, gaps aimed at "
-    "both TTL edges, direct backing writes, concurrent refreshes); PageCache (rounds: mixed clean/dirty residents, then overlapping "
+    "both TTL edges - also at huge absolute times (start_time 1e7 / 1.7e9 / 4e9 s + odd ns) with non-dyadic TTLs and probes placed "
+    "in integer ns within +-300 ns of the expiry instants -, direct backing writes, concurrent refreshes); PageCache (rounds: mixed clean/dirty residents, then overlapping "
     "read_page/write_page of one page during the dirty-victim write-back, flush at quiescence; plus free-running read/write/flush, read-ahead). "
     "Written values are unique tagged ids, except that ~22 % of writes store the key's falsy value (0, '', False, 0.0, [], {}) and ~3 % None "
     "(compared type-exactly through a canonical token). Non-trivial: cached/multitier - the run had >=1 eviction and >=1 miss-fill (or "
@@ -220,11 +221,30 @@ def make_client_classes():
     return Client, Finalizer
 
 
-def _run_sim(entities, starts, mon, res, instant_cap=5000, total_cap=60000):
+BIG_T0_S = [10_000_000, 1_700_000_000, 4_000_000_000]
+
+
+def _gen_t0(rng, p_big=0.3):
+    """Simulation start time in integer ns: mostly 0, otherwise a huge absolute time (115 days, Unix-epoch 2023, 2096)
+    plus an odd nanosecond offset, where float seconds can no longer resolve nanoseconds."""
+    if rng.random() >= p_big:
+        return 0
+    return rng.choice(BIG_T0_S) * 1_000_000_000 + rng.choice([0, 1, 37, 111, 259, 777, 123_456_789])
+
+
+def _start_ns(case, c):
+    """Absolute start instant of a client in integer ns: t0 + exact `start_ns` offset, or the float-seconds `start`."""
+    off = c["start_ns"] if "start_ns" in c else round(c["start"] * 1_000_000_000)
+    return int(case.get("t0_ns", 0)) + int(off)
+
+
+def _run_sim(entities, starts, mon, res, instant_cap=5000, total_cap=60000, t0_ns=0):
     """Build the Simulation, install the sampling hook, run under probe caps."""
     from happysimulator.core.simulation import Simulation
 
-    sim = Simulation(entities=entities)
+    from happysimulator.core.temporal import Instant
+
+    sim = Simulation(start_time=Instant(int(t0_ns)), entities=entities) if t0_ns else Simulation(entities=entities)
     sim.control.on_event(mon.on_delivery)
     for ev in starts:
         sim.schedule(ev)
@@ -439,7 +459,11 @@ def gen_cached(rng: random.Random, tier: str) -> dict:
         ks = [rng.randrange(nkeys) for _ in range(rng.randint(2, 8))]
         warmer = {"keys": ks, "rate": rng.choice([100.0, 500.0, 2000.0]), "latency": 0.001}
     _sprinkle_values(rng, clients)
+    t0_ns = _gen_t0(rng, 0.2)
+    if t0_ns:
+        warmer = None  # CacheWarmer.start_warming() stamps its event before the simulation exists
     return {
+        "t0_ns": t0_ns,
         "policy": gen_policy(rng),
         "write_through": wt,
         "capacity": cap,
@@ -487,7 +511,7 @@ def run_cached(case: dict) -> Result:
     fin = Finalizer("final", ctx, keys, do_flush=wb, settle=settle)
     ctx.finalizer = fin
     entities = [backing, store, fin, *clients]
-    starts = [Event(time=Instant.from_seconds(c["start"]), event_type="c16_go", target=cl) for c, cl in zip(case["clients"], clients)]
+    starts = [Event(time=Instant(_start_ns(case, c)), event_type="c16_go", target=cl) for c, cl in zip(case["clients"], clients)]
     if case.get("warmer"):
         wspec = case["warmer"]
 
@@ -501,7 +525,7 @@ def run_cached(case: dict) -> Result:
         ctx.warmer = warmer
         entities.append(warmer)
         starts.append(warmer.start_warming())
-    _run_sim(entities, starts, mon, res)
+    _run_sim(entities, starts, mon, res, t0_ns=case.get("t0_ns", 0))
     if not fin.ran and not res.inconclusive:
         res.inconclusive = "finalizer did not run"
     _finish(mon, res)
@@ -546,6 +570,7 @@ def gen_multitier(rng: random.Random, tier: str) -> dict:
         clients = block + clients[: rng.randint(0, 2)]
     _sprinkle_values(rng, clients)
     return {
+        "t0_ns": _gen_t0(rng, 0.2),
         "promotion": rng.choice(["always", "on_second_access", "never"]),
         "l1": {"policy": gen_policy(rng), "capacity": rng.randint(1, 2), "latency": rng.choice([0.0, 0.0001, 0.0005]), "write_through": rng.random() < 0.85},
         "l2": {"policy": gen_policy(rng), "capacity": rng.randint(2, 4), "latency": rng.choice([0.0005, 0.001, 0.002]), "write_through": True},
@@ -592,9 +617,9 @@ def run_multitier(case: dict) -> Result:
     fin = Finalizer("final", ctx, keys, do_flush=False, settle=settle)
     ctx.finalizer = fin
     entities = [backing, multi, *[t.store for t in tiers], fin, prewarmer, *clients]
-    starts = [Event(time=Instant.Epoch, event_type="c16_go", target=prewarmer)]
-    starts += [Event(time=Instant.from_seconds(c["start"]), event_type="c16_go", target=cl) for c, cl in zip(case["clients"], clients)]
-    _run_sim(entities, starts, mon, res)
+    starts = [Event(time=Instant(int(case.get("t0_ns", 0))), event_type="c16_go", target=prewarmer)]
+    starts += [Event(time=Instant(_start_ns(case, c)), event_type="c16_go", target=cl) for c, cl in zip(case["clients"], clients)]
+    _run_sim(entities, starts, mon, res, t0_ns=case.get("t0_ns", 0))
     if not fin.ran and not res.inconclusive:
         res.inconclusive = "finalizer did not run"
     _finish(mon, res)
@@ -620,6 +645,12 @@ def gen_softttl(rng: random.Random, tier: str) -> dict:
         lat["read"] = rng.choice([8, 12, 20]) * MS  # read latency comparable to the TTLs
     soft = rng.choice([0.0, 0.005, 0.01, 0.02, 0.03])
     hard = soft + rng.choice([0.0, 0.005, 0.01, 0.02, 0.04])
+    t0_ns = _gen_t0(rng, 0.45)
+    ns_edge = rng.random() < 0.45
+    if ns_edge:
+        # TTLs that are not dyadic fractions; accesses will be placed within +-300 ns of the expiry instants
+        hard = rng.choice([0.3, 0.7, 1.0 / 3.0, 0.1, 0.045])
+        soft = rng.choice([0.0, hard / 3.0, 0.1 * hard, hard])
     cap = rng.choice([None, None, 1, 2])
     eps = [0.0, 1e-6, 1e-4, -1e-4, lat["read"], -lat["read"], lat["cache"], -lat["cache"], lat["read"] + 1e-4, lat["read"] - 1e-4]
 
@@ -647,16 +678,42 @@ def gen_softttl(rng: random.Random, tier: str) -> dict:
         clients[1]["ops"] = b + clients[1]["ops"]
         clients[1]["start"] = 0.0
     warmer = None
-    if rng.random() < 0.15:
+    if rng.random() < 0.15 and not t0_ns:
         warmer = {"keys": [rng.randrange(nkeys) for _ in range(rng.randint(1, 5))], "rate": rng.choice([100.0, 1000.0]), "latency": 0.001}
+    init = [_init_spec(rng, 0.8) for _ in range(nkeys)]
+    if ns_edge:
+        # integer-nanosecond script, one per key: fill (miss-fetch lands at cached_at = a + read latency), the backing store
+        # changes 0-5 ns later (so the served value pins the entry's age from below), then probes issued within +-300 ns of
+        # the entry's hard (or soft) expiry instant.  Every scripted op has its own client with an exact `start_ns`.
+        to_ns = lambda x: round(x * 1_000_000_000)  # noqa: E731  (what Duration.from_seconds does)
+        rl_ns, hard_ns, soft_ns = to_ns(lat["read"]), to_ns(hard), to_ns(soft)
+        scripted = []
+        for ki in range(nkeys):
+            init[ki] = True
+            a = rng.choice([0, 1, 13, 250, 999, 1_000_003]) + ki * 7
+            scripted.append({"start": 0.0, "start_ns": a, "ops": [[0.0, "get", ki]]})
+            scripted.append({"start": 0.0, "start_ns": a + rl_ns + rng.choice([0, 1, 2, 5]), "ops": [[0.0, rng.choice(["bput_raw", "bput_raw", "bdel_raw"]), ki, "tag"]]})
+            edge_ns = hard_ns if rng.random() < 0.75 or soft_ns == hard_ns else soft_ns
+            overs = sorted({rng.randint(1, 300) if rng.random() < 0.65 else rng.randint(-300, 0) for _ in range(rng.randint(1, 2))})
+            for over in overs:
+                scripted.append({"start": 0.0, "start_ns": a + rl_ns + edge_ns + over, "ops": [[0.0, "get", ki]]})
+        # random clients start after the scripted probes so that they do not refresh the entries beforehand (mostly)
+        late = (max(c["start_ns"] for c in scripted) + 1000) / 1e9
+        keep = clients[: rng.randint(0, 2)]
+        for c in keep:
+            if rng.random() < 0.7:
+                c["start"] = round(c["start"] + late, 9)
+        clients = scripted + keep
     _sprinkle_values(rng, clients)
     return {
+        "t0_ns": t0_ns,
+        "ns_edge": ns_edge,
         "soft": soft,
-        "hard": round(hard, 6),
+        "hard": hard if ns_edge else round(hard, 6),
         "capacity": cap,
         "nkeys": nkeys,
         "lat": lat,
-        "init": [_init_spec(rng, 0.8) for _ in range(nkeys)],
+        "init": init,
         "clients": clients,
         "warmer": warmer,
     }
@@ -684,7 +741,7 @@ def run_softttl(case: dict) -> Result:
     ctx = _Ctx(mon, len(case["clients"]))
     clients = [Client(f"client{ci}", ctx, ci, c["ops"], keys) for ci, c in enumerate(case["clients"])]
     entities = [backing, store, *clients]
-    starts = [Event(time=Instant.from_seconds(c["start"]), event_type="c16_go", target=cl) for c, cl in zip(case["clients"], clients)]
+    starts = [Event(time=Instant(_start_ns(case, c)), event_type="c16_go", target=cl) for c, cl in zip(case["clients"], clients)]
     if case.get("warmer"):
         wspec = case["warmer"]
 
@@ -695,7 +752,7 @@ def run_softttl(case: dict) -> Result:
         warmer = CacheWarmer("warmer", cache=WarmView(), keys_to_warm=[keys[i] for i in wspec["keys"]], warmup_rate=wspec["rate"], warmup_latency=wspec["latency"])
         entities.append(warmer)
         starts.append(warmer.start_warming())
-    _run_sim(entities, starts, mon, res)
+    _run_sim(entities, starts, mon, res, t0_ns=case.get("t0_ns", 0))
     _finish(mon, res, check_reads=True, ttl=True)
     st = store.stats
     res.count("stale_hits", st.stale_hits)
